@@ -29,12 +29,16 @@ def pred_ok(pred):
         return False
     return "feature" in toks
 
+REPO_ = features.REPO
+
 def run(ctx):
+    global REPO_
+    REPO_ = getattr(ctx, "repo", None) or features.REPO
     thorough = ctx.tier == "thorough"
     # ---------------- R19.1
     jobs = []
     for c in CRATES:
-        table, flags, cl, sets = features.quick_sets(c)
+        table, flags, cl, sets = features.quick_sets(c, REPO_)
         if len(cl) < 45:
             ctx.add("R19.1", f"C19/closures/{c}", False, f"only {len(cl)} distinct feature closures computed (expected 45): manifest changed?")
         todo = [("default", None)] + [(",".join(s) or "none", s) for s in sets]
@@ -47,7 +51,7 @@ def run(ctx):
         for (cc, name, s) in jobs:
             if cc != c:
                 continue
-            rc, errs, tail = features.cargo_check(c, s or [], default=(s is None))
+            rc, errs, tail = features.cargo_check(c, s or [], default=(s is None), repo=REPO_)
             out.append((c, name, rc, errs, tail))
         return out
     with ThreadPoolExecutor(max_workers=4) as ex:
@@ -60,14 +64,14 @@ def run(ctx):
         for s in sets:
             env = dict(os.environ, CARGO_NET_OFFLINE="true", CARGO_TARGET_DIR=os.path.join(features.CACHE, "target-feat", "paseto-v1"))
             cmd = ["cargo", "check", "--offline", "--quiet", "-p", crate, "--no-default-features"] + (["--features", ",".join(s)] if s else [])
-            r = subprocess.run(cmd, cwd=features.REPO, env=env, capture_output=True, text=True)
+            r = subprocess.run(cmd, cwd=REPO_, env=env, capture_output=True, text=True)
             ctx.add("R19.1", f"C19/builds/{crate}/{','.join(s) or 'none'}", r.returncode == 0, "" if r.returncode == 0 else r.stderr[-400:])
     # ---------------- R19.2 cfgscan
     if not os.path.exists(CFGSCAN):
         ctx.add("R19.2", "C19/cfgscan/tool", False, "cfgscan binary missing (setup_cmd not run?)")
     else:
         for c in CRATES + ["paseto-core", "paseto-json"]:
-            files = sorted(glob.glob(os.path.join(features.REPO, c, "src", "**", "*.rs"), recursive=True))
+            files = sorted(glob.glob(os.path.join(REPO_, c, "src", "**", "*.rs"), recursive=True))
             r = subprocess.run([CFGSCAN] + files, capture_output=True, text=True)
             probs = []
             n = 0
@@ -81,10 +85,10 @@ def run(ctx):
                     parsed += 1
                     continue
                 if "error" in m:
-                    probs.append(f"{os.path.relpath(m['file'], features.REPO)}: cannot parse ({m['error'][:80]})")
+                    probs.append(f"{os.path.relpath(m['file'], REPO_)}: cannot parse ({m['error'][:80]})")
                     continue
                 n += 1
-                where = f"{os.path.relpath(m['file'], features.REPO)}:{m['line']}"
+                where = f"{os.path.relpath(m['file'], REPO_)}:{m['line']}"
                 if m["kind"] == "in-macro":
                     # macro_rules bodies may contain cfg attributes; paseto-core's serde_str! gates whole impls on feature = "serde"
                     if m["pos"] == "macro:macro_rules":
@@ -110,19 +114,19 @@ def run(ctx):
         full[c] = features.fn_digests(Crate(p))
     configs = []
     for c in CRATES:
-        table, flags, cl, sets = features.quick_sets(c)
+        table, flags, cl, sets = features.quick_sets(c, REPO_)
         if thorough:
             chosen = [v for v in sorted(cl.values()) if v]
         else:
             chosen = [["verifying"], ["decrypting"]]
         for s in chosen:
             configs.append((c, s))
-    tgt = os.path.join(features.CACHE, "target")
+    tgt = os.path.join(features.CACHE, "target" if REPO_ == features.REPO else "target-selftest")
     for c, s in configs:
         name = c + "+" + ",".join(s)
-        cfgname = "feat-" + hashlibname(name)
+        cfgname = ("feat-" if REPO_ == features.REPO else "selftest-feat-") + hashlibname(name)
         try:
-            fd = extract.extract(cfgname, features=s, pkgs=[c], target=tgt)
+            fd = extract.extract(cfgname, repo=REPO_, features=s, pkgs=[c], target=tgt)
             cr = Crate(os.path.join(fd, c.replace("-", "_") + ".lib.json"))
         except Exception as e:
             ctx.add("R19.3", f"C19/same-code/{name}", False, f"extraction failed: {e}")
